@@ -37,6 +37,9 @@ for j in range(15):
 # scans whose expression Verus verifies where it stands (R22 + a std specification of slice::Iter::position): the Kani run is no longer what the
 # property rests on
 IN_PLACE = {'find_input_scan': 'unit decode, StateAnyTrans::find_input', 'registry_find': 'unit registry, RegistryCache::entry'}
+# scans over the crate's own Transitions iterator: the closure is verified where it stands, the adapter chain (provided trait methods, which
+# Verus cannot specify at a user type) is a std-level assumption stated for any predicate
+CLOSURE_IN_PLACE = {'seek_position': 'unit stream, StreamWithState::seek_min', 'getkey_take_while_last': 'unit getkey, FstRef::get_key_into'}
 # which hoisted helper comes from which Verus unit
 HOIST_UNITS = {'hoist_find_input': 'decode', 'vx_hoist_seek_position': 'stream', 'vx_hoist_getkey': 'getkey', 'hoist_find': 'registry'}
 SCAN_HOISTS = {'find_input_scan': 'hoist_find_input', 'seek_position': 'vx_hoist_seek_position', 'getkey_take_while_last': 'vx_hoist_getkey',
@@ -205,6 +208,10 @@ def run_groups(harnesses, tier, repo, work):
                 if hn in IN_PLACE:
                     r['assumptions'].append('K-scan %s: fan-out window %d - a second, bounded run of the same text that supplies a replayable counterexample; the obligation itself is '
                                             'discharged for every length by Verus on the expression in place (%s)' % (hn, wv, IN_PLACE[hn]))
+                elif hn in CLOSURE_IN_PLACE:
+                    r['assumptions'].append('K-scan %s: fan-out window %d (%s) - runs the real expression (closure + std adapters + the crate\'s Transitions iterator) and supplies a replayable '
+                                            'counterexample; in Verus the closure is verified where it stands (%s) and the adapter chain is an assumption about std stated for any predicate, '
+                                            'so the property does not rest on this window' % (hn, wv, 'every fan-out a node can have' if wv >= 256 else 'bounded', CLOSURE_IN_PLACE[hn]))
                 else:
                     r['assumptions'].append('K-scan %s: fan-out window %d (%s)' % (hn, wv, 'every fan-out a node can have: complete' if wv >= 256 else 'BOUNDED stand-in, not counted as proved beyond this fan-out'))
     for h in sel:
